@@ -5,6 +5,7 @@ CONSTANTS
   Chains = {1, 2, 3, 4, 5}
   Targets = {1, 2}
   Payloads = {1, 2}
+  Spellings = {"bare", "0x", "0X", "odd", "upper", "empty"}
 INIT TraceInit
 NEXT TraceNext
 POSTCONDITION TraceAccepted
